@@ -28,7 +28,7 @@ META = {
         'a copy, and the input is returned unchanged when no pixel is bad; C17.SKY - skymask tests exactly BADSKYCHI and '
         'REDMONSTER on ormask, dilates each row with width 2*ngrow+1 using the edge-truncating smooth, multiplies invvar by the '
         'complement; C17.SKY-CAST - each & between the caller\'s mask and a uint64 flag value has an explicit conversion. '
-        'C17.MEDIAN - djs_median does not pad with the non-repeating reflect mode of numpy.pad. NOT decided: the explicit reflection slices of djs_median, maxrej/group logic, numerical interpolation values.'),
+        'C17.MEDIAN - djs_median does not pad with the non-repeating reflect mode of numpy.pad. C17.SMOOTH - smooth() uses the requested width made odd and returns its input unchanged only for widths below 3; C17.REJ-MASKS also: the model-less first pass hands back the input mask. NOT decided: the explicit reflection slices of djs_median, maxrej/group logic, numerical interpolation values.'),
     'floors': {'C17.SMOOTH': 3, 'C17.MI-SITES': 11, 'C17.MI1-STORE': 6, 'C17.MI1-ORDER': 1, 'C17.GROW': 3, 'C17.REJ-MASKS': 10, 'C17.AESTH': 4,
                'C17.SKY': 5, 'C17.SKY-CAST': 2, 'C17.MEDIAN': 1},
 }
